@@ -45,6 +45,21 @@ def Value.write : Value → Setter × Payload
 /-- the model operation of a typed write -/
 def Value.op (v : Value) (c r : Nat) : Op := .set v.write.1 c r v.write.2
 
+/-- the single writes `SetSheetRow` (byRow) / `SetSheetCol` perform, element i at (c+i, r) / (c, r+i) -/
+def seqOps (byRow : Bool) (c r : Nat) : Nat → List Value → List Op
+  | _, [] => []
+  | i, v :: vs => (if byRow then v.op (c + i) r else v.op c (r + i)) :: seqOps byRow c r (i + 1) vs
+
+/-- `setSheetCells`: `SetCellValue` element by element; `CoordinatesToCellName` rejects a position beyond the
+grid and a rejected element ends the loop (the elements before it stay written) -/
+def setSheetCells (s : Sheet) (byRow : Bool) (c r : Nat) : Nat → List Value → Sheet × Res
+  | _, [] => (s, .ok)
+  | i, v :: vs =>
+    if (if byRow then c + i else c) > Facts.MaxColumns ∨ (if byRow then r else r + i) > Facts.TotalRows then (s, .err)
+    else
+      let w := step s (if byRow then v.op (c + i) r else v.op c (r + i))
+      if w.2 = .ok then setSheetCells w.1 byRow c r (i + 1) vs else (w.1, w.2)
+
 /-- decimal reading of what the integer setters store (optional minus sign, digits) -/
 def decInt (s : List Char) : Option Int :=
   match s with
